@@ -5,6 +5,7 @@
 #include <new>
 #include <nop/base/encoding.h>
 #include <nop/base/members.h>
+#include <nop/base/optional.h>
 #include <nop/base/serializer.h>
 #include <nop/base/table.h>
 #include <nop/base/value.h>
@@ -72,8 +73,57 @@ struct TBIG {
   NOP_TABLE_HASH(9, TBIG, a, b);
 };
 
+// an entry whose value type is itself an Optional: present-with-empty-value and absent are different states
+using OI8 = nop::Optional<std::int8_t>;
+struct TOPT {
+  nop::Entry<OI8, 0> a;
+  nop::Entry<std::uint8_t, 1> b;
+  NOP_TABLE_HASH(11, TOPT, a, b);
+};
+
 template <typename E>
 inline std::uint64_t present(const E& e) { return e.empty() ? 0 : 1; }
+
+template <>
+struct Fmt<TOPT> {
+  static void enc(fmt::Out& o, const TOPT& v) {
+    fmt::put(o, FMT_TAB);
+    fmt::enc_uint(o, 11);
+    fmt::enc_uint(o, present(v.a) + present(v.b));
+    fmt::enc_entry(o, 0, v.a, 0);
+    fmt::enc_entry(o, 1, v.b, 0);
+  }
+  static bool dec(fmt::In& in, TOPT* v) {
+    v->a.clear();
+    v->b.clear();
+    std::uint64_t count;
+    if (!fmt::dec_table_header(in, 11, &count)) return false;
+    for (std::uint64_t i = 0; i < count; i++) {
+      std::uint64_t id;
+      if (!fmt::dec_uint(in, 8, &id)) return false;
+      if (id == 0) { if (!fmt::dec_entry<OI8>(in, &v->a)) return false; }
+      else if (id == 1) { if (!fmt::dec_entry<std::uint8_t>(in, &v->b)) return false; }
+      else if (!fmt::skip_entry(in)) return false;
+    }
+    return true;
+  }
+};
+template <>
+struct Gen<TOPT> {
+  static void make(TOPT* v) {
+    const std::uint8_t k = nondet<std::uint8_t>() % 3;  // absent, present holding an empty Optional, present holding a value
+    if (k == 0) v->a.clear();
+    else if (k == 1) static_cast<nop::Optional<OI8>&>(v->a) = nop::Optional<OI8>(OI8());
+    else static_cast<nop::Optional<OI8>&>(v->a) = nop::Optional<OI8>(OI8(nondet<std::int8_t>()));
+    if (nondet<bool>()) v->b = nondet<std::uint8_t>(); else v->b.clear();
+  }
+  static bool eq(const TOPT& x, const TOPT& y) {
+    if (x.a.empty() != y.a.empty() || !(x.b == y.b)) return false;
+    if (x.a.empty()) return true;
+    if (x.a.get().empty() != y.a.get().empty()) return false;
+    return x.a.get().empty() || x.a.get().get() == y.a.get().get();
+  }
+};
 
 template <>
 struct Fmt<TBIG> {
@@ -367,6 +417,9 @@ inline void lemma_table_defects() {
 VT_HARNESS(h_enc_tw) { vt::lemma_encode<vt::TW>(); }
 VT_HARNESS(h_enc_tr1) { vt::lemma_encode<vt::TR1>(); }
 VT_HARNESS(h_enc_tn) { vt::lemma_encode<vt::TN>(); }
+VT_HARNESS(h_enc_topt) { vt::lemma_encode<vt::TOPT>(); }
+VT_HARNESS(h_dec_topt_ped) { vt::lemma_decode<vt::TOPT, nop::PedanticBufferReader, 9, false, false>(); }
+VT_HARNESS(h_rt_topt_ped_ped) { vt::lemma_roundtrip<vt::TOPT, nop::PedanticBufferWriter, nop::PedanticBufferReader>(); }
 VT_HARNESS(h_enc_tbig) { vt::lemma_encode<vt::TBIG>(); }
 VT_HARNESS(h_cap_tbig_bw) { vt::lemma_capacity<vt::TBIG, nop::BufferWriter, 22>(); }
 VT_HARNESS(h_rt_tbig_ped_ped) { vt::lemma_roundtrip<vt::TBIG, nop::PedanticBufferWriter, nop::PedanticBufferReader>(); }
